@@ -1351,7 +1351,7 @@ def apply_text_layout(
                 [(at, run)] = arange(start_offs, end_offs)  # pylint: disable=unbalanced-tuple-unpacking
                 rle_append_modify(linea, (at, destw))  # noqa: B023
                 return
-            if destw == end_offs - start_offs:
+            if destw == end_offs - start_offs and (isinstance(text, bytes) or text[start_offs:end_offs].isascii()):
                 for at, run in arange(start_offs, end_offs):
                     rle_append_modify(linea, (at, run))  # noqa: B023
                 return
